@@ -29,14 +29,14 @@ ASSUMPTIONS = ['comparison is with the frame as it was when saved (a derived fra
                'blimpy container conventions (f_start/f_stop as band edges) are not judged: get_waterfall() is judged by its header and data only']
 STARTS = ['synthetic', 'from_data', 'shape', 'loaded_fil', 'loaded_h5', 'loaded_fsel', 'loaded_tsel', 'loaded_foreign']
 OPS = ['add_noise', 'add_signal', 'get_waterfall', 'copy', 'save_fil', 'save_h5', 'reload_fil', 'reload_h5', 'get_slice', 'dedrift', 'pickle',
-       'other_frame', 'retime', 'retune', 'rewrap', 'rebind', 'failed_save']
+       'other_frame', 'retime', 'retune', 'rewrap', 'rebind', 'failed_save', 'consolidate']
 
 
 def required(tier):
     b = {f'start:{s}': 5 for s in STARTS}
     b.update({f'op:{o}': 10 for o in OPS})
     b.update({'orient:asc': 30, 'orient:desc': 30, 'fmt:fil': 100, 'fmt:h5': 100, 'derived-frame-saved': 30,
-              'saved-after-get_waterfall': 20, 'helper-sweep': 15, 'ancestor-saved-after-child': 30})
+              'saved-after-get_waterfall': 20, 'helper-sweep': 15, 'ancestor-saved-after-child': 30, 'consolidated-frame-saved': 10})
     return {'buckets': b, 'counters': {'saves_monitored': 300, 'helper_header_combos': 2000, 'pixels_compared': 100000},
             'checks': 5000, 'nontrivial': 100}
 
@@ -365,6 +365,19 @@ def _run(stg, c, d, R):
                 after = snapshot(fr)
                 R.check(np.array_equal(after['data'], snap['data']) and after['source_name'] == snap['source_name']
                         and after['t_start'] == snap['t_start'], 'failed-save-changed-the-frame')
+            elif op == 'consolidate':
+                # the frame and a later observation of the same band concatenated by a cadence (its time axis then holds absolute
+                # times); the result starts when the first member starts
+                later = stg.Frame(fchans=fr.fchans, tchans=int(2 + o['a'] * 6), df=fr.df, dt=fr.dt, fch1=fr.fch1, ascending=fr.ascending,
+                                  seed=3, t_start=float(fr.t_start) + fr.tchans * fr.dt + 50.0 + 500 * o['b'], source_name=fr.source_name)
+                later.data = marker(rng, later.tchans, later.fchans)
+                if later.fmin == fr.fmin and later.df == fr.df and later.dt == fr.dt:
+                    t_first = float(fr.t_start)
+                    ancestors.append(fr)
+                    fr = stg.Cadence([fr, later]).consolidate()
+                    R.check(abs(float(fr.t_start) - t_first) <= 1e-6, 'consolidated-frame-start-time', got=float(fr.t_start) - t_first)
+                    derived = True
+                    R.bucket('consolidated-frame-saved')
             elif op == 'pickle':
                 p = newpath('pickle')
                 fr.save_pickle(p)
